@@ -1089,7 +1089,10 @@ func (p *pp) missingArg(verb rune) {
 }
 
 func (p *pp) doPrintf(format string, a []interface{}) {
-	p.buf.SetMode(b.SafeEscaped)
+	if p.override != overrideUnsafe {
+		// CUSTOM: a nested printer under Unsafe() must not leave unsafe mode.
+		p.buf.SetMode(b.SafeEscaped)
+	}
 	end := len(format)
 	argNum := 0         // we process one argument per non-trivial format
 	afterIndex := false // previous item in format was an index like [3].
@@ -1265,7 +1268,10 @@ formatLoop:
 }
 
 func (p *pp) doPrint(a []interface{}) {
-	p.buf.SetMode(b.SafeEscaped)
+	if p.override != overrideUnsafe {
+		// CUSTOM: a nested printer under Unsafe() must not leave unsafe mode.
+		p.buf.SetMode(b.SafeEscaped)
+	}
 	prevString := false
 	for argNum, arg := range a {
 		isString := arg != nil && reflect.TypeOf(arg).Kind() == reflect.String
@@ -1281,7 +1287,10 @@ func (p *pp) doPrint(a []interface{}) {
 // doPrintln is like doPrint but always adds a space between arguments
 // and a newline after the last argument.
 func (p *pp) doPrintln(a []interface{}) {
-	p.buf.SetMode(b.SafeEscaped)
+	if p.override != overrideUnsafe {
+		// CUSTOM: a nested printer under Unsafe() must not leave unsafe mode.
+		p.buf.SetMode(b.SafeEscaped)
+	}
 	for argNum, arg := range a {
 		if argNum > 0 {
 			p.buf.writeByte(' ')
